@@ -346,6 +346,8 @@ pub fn gen(rng: &mut Rng, n: usize) -> Vec<Case> {
         let (mut inp, lazy, fault, depth) = crate::streams::c20_gen_input(rng, &opts);
         // other layouts of the DSL: tabs, several statements per line behind non-ASCII literals (character vs byte columns)
         if rng.chance(30) { inp.dsl = crate::streams::relayout(rng, &inp.dsl); }
+        // an error without any context (a declared global that the caller does not supply): a chain of one entry
+        if rng.chance(6) { inp.supplied.clear(); }
         let (tv, tsg) = pick_text(rng, &inp.dsl);
         let (sv, src) = pick_text(rng, &inp.src);
         let rd = Render { tsg_path: rng.pick(TSG_PATHS).to_string(), src_path: rng.pick(SRC_PATHS).to_string(), tsg, src,
